@@ -71,6 +71,13 @@ CHECKS.update({
    note="Reorgs while the notifier is down are excluded (lnd's documented limitation); stale-scan candidates are recorded, not reported; two genuine findings repaired in /repo (fix: 8ff4b07, 8d4968e); thorough adds a free-running -race pass.", ref="§4 C14"),
 })
 
+CHECKS.update({
+ "C16": dict(cat="model_checking", engine="seqmc+crashdb",
+   technique="explicit-state BFS with canonical read-interface keys (engine seqmc) on the real KVStore and SQLStore in lock-step, reference-ledger admission clauses, the transcribed 16-row status table, KV==SQL differential, transaction-granular linearizability via crashdb/TransactionExecutor scheduling hooks, and a free-running (-race) linearizability pass",
+   text="Every payment-store operation sequence (2 hashes, attempt ids 1-4, 3 amounts, 8 MPP/blinded record kinds, all deletes, store re-open) to depth 5 (quick) / 6-7 (thorough) is executed on both real backends; every multi-transaction operation is interleaved with every other operation at its transaction boundary and must be explained by a sequential order.",
+   note="Six KV/SQL divergences on contract-edge histories (duplicate or foreign attempt ids, unknown payments) are listed as known findings; SQL means sqlite; goroutine schedules inside one transaction are not enumerated (every operation but KV InitPayment is one transaction; that boundary is enumerated); concurrent RegisterAttempt on one hash is a documented caller obligation.", ref="§4 C16"),
+})
+
 NOT_YET = "harness not built yet in this round (planned, see DESIGN.md §4)"
 
 def main():
